@@ -1,7 +1,7 @@
 (* C18 - the lemmas behind Properties.v, stated over ALL histories (every state reachable from
    the initial one by any command list), and satisfiable Examples (non-vacuity). *)
 From Coq Require Import List Arith ZArith Bool String Lia.
-From C18 Require Import Gen Model ProofsBase ProofsStorage ProofsInv ProofsErr ProofsTrans ProofsFuel ProofsValues ProofsReg.
+From C18 Require Import Gen Model ProofsBase ProofsStorage ProofsInv ProofsErr ProofsTrans ProofsFuel ProofsValues ProofsReg ProofsFrame ProofsOps.
 Import ListNotations.
 Local Open Scope list_scope.
 
@@ -60,12 +60,67 @@ Qed.
 (* ---- the state machine *)
 Lemma state_machine : forall gc ops o j,
   tr (stof (reach gc ops) j) (stof (fst (step o (reach gc ops))) j) /\
-  (stof (fst (step o (reach gc ops))) j = None -> stof (reach gc ops) j <> None -> o = ODestroy j \/ o = OClose j).
-Proof. intros. apply step_tr, reach_Inv. Qed.
+  (stof (fst (step o (reach gc ops))) j = None -> stof (reach gc ops) j <> None -> o = ODestroy j \/ o = OClose j \/ o = OForget j) /\
+  (stof (reach gc ops) j = Some Normal -> stof (fst (step o (reach gc ops))) j = Some Dead -> exists rets n, o = OEnd rets n).
+Proof.
+  intros. destruct (step_tr o (reach gc ops) j (reach_Inv gc ops)) as (A & B). split; [exact A|]. split; [exact B|].
+  intros X Y. destruct o; try solve [eexists; eexists; reflexivity]; exfalso;
+    (refine (step_not_unwound _ _ j (reach_Inv gc ops) _ (conj X Y)); intros ? ? E; discriminate E).
+Qed.
+
+(* the documented transition table, operation by operation *)
+Lemma resume_transition_all : forall gc ops k vals r s1, let s := reach gc ops in co_resume k vals s = (r, s1) ->
+  (r = COk ->
+     stof s k = Some Suspended /\ stof s1 k = Some Running /\ current s1 = Some k /\
+     (forall p, current s = Some p -> stof s p = Some Running /\ stof s1 p = Some Normal) /\
+     (forall j, j <> k -> current s <> Some j -> stof s1 j = stof s j)) /\
+  (r <> COk -> current s1 = current s /\ forall j, stof s1 j = stof s j).
+Proof. intros. eapply resume_transition; eauto. apply reach_Inv. Qed.
+
+Lemma yield_transition_all : forall gc ops k c vals r s1, let s := reach gc ops in
+  current s = Some k -> get k (cos s) = Some c -> co_yield vals s = (r, s1) ->
+  (r = COk ->
+     stof s k = Some Running /\ stof s1 k = Some Suspended /\ current s1 = co_prev c /\
+     (forall p, co_prev c = Some p -> stof s p = Some Normal /\ stof s1 p = Some Running) /\
+     (forall j, j <> k -> co_prev c <> Some j -> stof s1 j = stof s j)) /\
+  (r <> COk -> current s1 = current s /\ forall j, stof s1 j = stof s j).
+Proof. intros. eapply yield_transition; eauto. apply reach_Inv. Qed.
+
+Lemma return_transition_all : forall gc ops k c rets s1, let s := reach gc ops in
+  current s = Some k -> get k (cos s) = Some c -> finish_body k rets s = (COk, s1) ->
+  stof s k = Some Running /\ stof s1 k = Some Dead /\ current s1 = co_prev c /\
+  (forall p, co_prev c = Some p -> stof s p = Some Normal /\ stof s1 p = Some Running) /\
+  (forall j, j <> k -> co_prev c <> Some j -> stof s1 j = stof s j).
+Proof. intros. eapply return_transition; eauto. apply reach_Inv. Qed.
+
+Lemma quiet_commands_all : forall gc ops o j, let s := reach gc ops in
+  (ctl_neutral o -> stof (fst (step o s)) j = stof s j /\ current (fst (step o s)) = current s) /\
+  (forall r s', api o s = Some (CErr r, s') -> stof s' j = stof s j /\ current s' = current s).
+Proof.
+  intros gc ops o j s. split.
+  - intro N. apply neutral_transition; [apply reach_Inv|exact N].
+  - intros r s' H. eapply failed_call_transition; eauto. apply reach_Inv.
+Qed.
+
+(* a command changes the stored bytes only of the coroutine it addresses *)
+Lemma storage_frame : forall gc ops o j, ~ addressed o (reach gc ops) j ->
+  stor (fst (step o (reach gc ops))) j = stor (reach gc ops) j.
+Proof. intros gc ops o j N. exact (step_frame o (reach gc ops) (reach_Inv gc ops) j N). Qed.
+
+Lemma storage_frame_run : forall gc ops more j, quiet j more (reach gc ops) ->
+  stor (fst (run more (reach gc ops))) j = stor (reach gc ops) j.
+Proof. intros. apply run_frame; [apply reach_Inv|assumption]. Qed.
+
+(* coroutine.pop, exactly (also when it fails midway) *)
+Lemma pop_effect_all : forall gc ops k c lens, let s := reach gc ops in get k (cos s) = Some c ->
+  exists vs, co_pop k lens s =
+    (if snd (unfit (storage c) (rev lens)) then COk else CErr MCO_NOT_ENOUGH_SPACE, vs,
+     with_st s k c (fst (unfit (storage c) (rev lens)))).
+Proof. intros. apply co_pop_effect; [apply reach_Inv|assumption]. Qed.
 
 Lemma dead_is_absorbing : forall gc ops o j, stof (reach gc ops) j = Some Dead ->
   stof (fst (step o (reach gc ops))) j = Some Dead \/
-  (stof (fst (step o (reach gc ops))) j = None /\ (o = ODestroy j \/ o = OClose j)).
+  (stof (fst (step o (reach gc ops))) j = None /\ (o = ODestroy j \/ o = OClose j \/ o = OForget j)).
 Proof. intros. apply dead_absorbing; [apply reach_Inv|assumption]. Qed.
 
 Lemma end_unwinds : forall gc ops rets n, no_fuel_line (snd (step (OEnd rets n) (reach gc ops))).
@@ -126,8 +181,8 @@ Lemma invalid_transitions : forall gc ops, let s := reach gc ops in
   (forall vals, current s = None -> co_yield vals s = (CErr MCO_INVALID_COROUTINE, s)) /\
   (forall k c, get k (cos s) = Some c ->
      (co_st c = Running \/ co_st c = Normal) -> co_destroy k s = (CErr MCO_INVALID_OPERATION, s)) /\
-  (forall k c v, get k (cos s) = Some c -> 0 < List.length v -> co_cap c < co_stored c + List.length v ->
-     co_push k [v] s = (CErr MCO_NOT_ENOUGH_SPACE, s)) /\
+  (forall k c vs, get k (cos s) = Some c -> snd (fit (co_cap c) (storage c) vs) <> MCO_SUCCESS ->
+     co_push k vs s = (CErr MCO_NOT_ENOUGH_SPACE, s)) /\
   (forall k c n, get k (cos s) = Some c -> co_stored c < n -> co_pop k [n] s = (CErr MCO_NOT_ENOUGH_SPACE, [], s)) /\
   (forall k c n, get k (cos s) = Some c -> co_stored c < n -> mco_peek k true n s = (MCO_NOT_ENOUGH_SPACE, [])).
 Proof.
@@ -137,7 +192,7 @@ Proof.
   split; [intros; eapply resume_self; eauto|].
   split; [intros; eapply yield_from_main; eauto|].
   split; [intros; eapply destroy_active; eauto|].
-  split; [intros; eapply push_overflow_one; eauto|].
+  split; [intros; eapply push_overflow; eauto|].
   split; [intros; eapply pop_underflow_one; eauto|].
   intros; eapply peek_underflow; eauto.
 Qed.
